@@ -39,7 +39,7 @@ SEARCHES = [
 ]
 
 # range attributes that constrain the *returned configuration* (dividers, multipliers, PFD, VCO)
-CONFIG_RANGE = re.compile(r"^(vco(_in|_out)?_freq_range|pfd_freq_range|clkin_pfd_freq_range|.*_div_range|.*_divide_range|"
+CONFIG_RANGE = re.compile(r"^(vco(_in|_out)?_freq_range|pfd_freq_range|clkin_pfd_freq_range|.*_div_f?range|.*_divide_f?range|"
                           r".*_mult_f?range|div[rfq]_range)$")
 
 # G1 exceptions: (class, loop variable) -> reason
